@@ -1,15 +1,24 @@
 (* C10  Files are read as the exact problem their text denotes.
-   Level reached: proof of the literal scanner + exploration with independent renderers.
+   Level reached: proof of the literal scanner + a line-level model of the LP reader (IO/LpRead.v, tied to
+   mpq_QSget_prob on every run on rendered, mutated and library-written files, accepted and rejected) with theorems for
+   one family of layouts + exploration with independent renderers.
    PROVED (all lengths, both variants of the scanner - as found / with numreader_div_zero.diff):
    every structured literal  sign? digits (. digits)? ((e|E) sign? digits)? (/ the same)?  with at most 9
    exponent digits and a non-zero denominator is consumed completely and read as exactly the rational
    it spells (0.1 = 1/10); what the library prints is read back as the same rational; the default /
    implicit bound rules (fill_in_bounds) invert the writer's elision; the RANGES interval rules.
-   NOT PROVED: the file-level statement read_lp (render P layout) = Some P (no token-level reader model):
-   explored with an independent renderer over the lexical freedoms of both formats. *)
+   PROVED for the LP reader model: expressions laid out with line breaks at arbitrary places and the "+" before or
+   after a break are read as the terms they spell (C10_lp_expr_any_wrapping: omitted coefficient = 1, sign and number
+   separated by blanks or line breaks, names that spell keywords away from column 0); a column name is never taken for
+   a bound value unless it IS inf / infinity (C10_lp_name_is_no_bound); bound values inf / -inf / numbers are read as the
+   value they spell (C10_lp_bound_value); whole files in the writer's layout denote the problem written
+   (C10_lp_written_file_partial = C08_lp_roundtrip).
+   NOT PROVED: read_lp (render P layout) = Some P for the other lexical freedoms (keyword spellings and case, comments,
+   explicit "+" on the first term, repeated terms, coefficient spellings other than p/q, several bound statements on a
+   line): explored with the independent renderer, and the reader model must agree with the library on each such file. *)
 From Coq Require Import List QArith Lia.
 Import ListNotations.
-From QSX Require Import IO.Num IO.NumSound IO.Bounds IO.Ranges IO.Equiv.
+From QSX Require Import IO.Num IO.NumSound IO.Bounds IO.Ranges IO.Equiv IO.Lex IO.LpWrite IO.LpRead IO.LpTok IO.LpExpr IO.LpRows IO.LpBounds IO.LpFinish IO.LpRoundtrip IO.LpTotal IO.LpBytes.
 Local Open Scope Q_scope.
 
 Theorem C10_read_denotes :
@@ -52,3 +61,57 @@ Proof.
   repeat split; try (right; discriminate); try (left; discriminate); try lia.
 Qed.
 Print Assumptions C10_literal_example.
+
+(* ---- the LP reader model -------------------------------------------------------------------------------------------- *)
+
+Theorem C10_lp_expr_any_wrapping :
+  forall M, 0 < M -> forall tc tl its st rw k cu re,
+  (forall st0, cur st0 = cutline tc -> rest st0 = tl -> eof st0 = false -> snd (sign st0) = None) ->
+  stop_name (cutline tc) ->
+  items_ok M MFirst its -> rem M tc tl its = (cu, re) ->
+  cur st = cutline cu -> rest st = re -> eof st = false -> (count_terms its <= k)%nat ->
+  exists st_t, cur st_t = cutline tc /\ rest st_t = tl /\ eof st_t = false /\
+    read_expr true (S k) st rw true = PrOk (fst (sign st_t), add_terms rw (terms_of its)).
+Proof. exact expr_roundtrip. Qed.
+Print Assumptions C10_lp_expr_any_wrapping.
+
+Theorem C10_lp_name_is_no_bound :
+  forall M st b nm c', cur st = b ++ nm ++ c' -> all_blank b -> name_ok nm -> reserved nm = false ->
+  (c' = [] \/ exists y r, c' = y :: r /\ is_blank y = true) ->
+  exists st', possible_bound_value true M st = inl (st', None) /\ moved st st' b (nm ++ c') /\ fld st' = fld st.
+Proof. exact pbv_name. Qed.
+Print Assumptions C10_lp_name_is_no_bound.
+
+Theorem C10_lp_bound_value :
+  forall M st b v c', cur st = b ++ print_val M v ++ c' -> all_blank b ->
+  (c' = [] \/ exists y r, c' = y :: r /\ is_blank y = true) ->
+  exists st' b' c'', possible_bound_value true M st = inl (st', Some (rd_bound M v)) /\
+    c' = b' ++ c'' /\ all_blank b' /\ cur st' = c'' /\ rest st' = rest st /\ eof st' = eof st /\ pre st' <> [].
+Proof. exact pbv_val. Qed.
+Print Assumptions C10_lp_bound_value.
+
+Theorem C10_lp_bound_value_exact : forall M v, rd_bound M v == v.
+Proof. exact rd_bound_eq. Qed.
+Print Assumptions C10_lp_bound_value_exact.
+
+Theorem C10_lp_written_file_partial :
+  forall M, 0 < M -> forall P, wf_lp M P ->
+  exists P', read_lp true M (write_lp M P) = Some P' /\ equiv_by_name (to_nlp P) (to_nlp P') = true.
+Proof. exact lp_roundtrip. Qed.
+Print Assumptions C10_lp_written_file_partial.
+
+(* the LP reader model is a total function of the lines: the answer "fuel exhausted" is unreachable for every input
+   (every iteration of its four loops consumes at least one byte); also the termination half of C11 for this reader *)
+Theorem C10_lp_reader_total : forall strict M ls, read_lp_res strict M ls <> PrFuel.
+Proof. exact fuel_suffices. Qed.
+Print Assumptions C10_lp_reader_total.
+
+(* the reader sees a line only up to its first newline, NUL or backslash, and reading the bytes of a file is reading its lines *)
+Theorem C10_lp_reader_cut : forall strict M ls, read_lp_res strict M (map cutline ls) = read_lp_res strict M ls.
+Proof. exact read_lp_res_cut. Qed.
+Print Assumptions C10_lp_reader_cut.
+
+Theorem C10_lp_reader_bytes :
+  forall strict M ls, Forall line_ok ls -> read_lp_res strict M (split_lines (file_bytes ls)) = read_lp_res strict M ls.
+Proof. exact read_lp_bytes. Qed.
+Print Assumptions C10_lp_reader_bytes.
